@@ -50,14 +50,16 @@ def days_in_month(y, m):
 
 
 class Gen:
-    def __init__(self, layout, rng, big=False):
-        self.layout, self.rng, self.big = layout, rng, big
+    def __init__(self, layout, rng, big=False, small=False):
+        self.layout, self.rng, self.big, self.small = layout, rng, big, small
 
     def length_choice(self, lo, hi):
         """a length in lo..hi biased to the ends"""
         r = self.rng
         if hi <= lo:
             return lo
+        if self.small:
+            return r.randint(lo, min(hi, lo + 2))
         c = r.random()
         if c < 0.15:
             return lo
@@ -92,7 +94,7 @@ class Gen:
         if k == "int":
             top = 256 ** ty["w"]
             if enc == "bcd":
-                if mp is not None:
+                if mp is not None and mp < 10:
                     top = min(top, 100 ** mp)
                 return self.num(top)
             if enc == "prrn":
@@ -142,7 +144,7 @@ class Gen:
                 return None
             return self.value(field, ty["t"])
         if k == "vec":
-            n = r.choice([0, 1, 2, 2, 3, r.randint(0, 6)])
+            n = r.choice([0, 1, 2, 2, 3, r.randint(0, 6)]) if not self.small else r.choice([0, 1])
             return [self.value(field, ty["t"]) for _ in range(n)]
         if k == "struct":
             return self.struct(self.layout["by_name"][ty["name"]])
@@ -155,6 +157,10 @@ class Gen:
         fields = s["fields"]
         for f in fields:
             v[f["name"]] = self.value(f, f["ty"], p_none)
+        return self.repair(s, v)
+
+    def repair(self, s, v):
+        fields = s["fields"]
         # repair positional optionals back to front
         for i in range(len(fields) - 1, -1, -1):
             f = fields[i]
